@@ -1,8 +1,7 @@
 --------------------------- MODULE Consumer_Trace ---------------------------
 (* Validates executions of the real Consumer (over a scripted client) against Consumer.  The abstract *)
-(* state follows the design module's Step with KF_ContinueAfterFailure = TRUE (what afkak does today); *)
-(* the property clauses are evaluated on the OBSERVED history without that allowance, so the known     *)
-(* finding shows up as the clause it breaks.                                                           *)
+(* state follows the design module's Step; what each event made the consumer do is compared with the   *)
+(* prediction field by field, and the property clauses are evaluated on the OBSERVED history.          *)
 EXTENDS Consumer, Json, IOUtils, TLCExt
 
 Traces == JsonDeserialize(IOEnv.TRACE_FILE)
@@ -57,6 +56,7 @@ TNext ==
        IN IF e.a = "Unexecutable" \/ ~Possible(s, e)
           THEN /\ viol' = viol \cup {<<"ENV.impossible", l>>}
                /\ l' = Len(tr.steps) + 1
+               /\ (IOEnv.TRACE_DEBUG = "1" => PrintT(<<"MISMATCH", tid, l, <<"impossible">>, s, h.procFailed>>))
                /\ UNCHANGED <<s, ev, out, h, tid, drift>>
           ELSE LET r == Step(s, e)
                    o == rec.o.acts
